@@ -303,3 +303,86 @@ pub fn heap_audit(rt: &RuntimeData) -> Result<AuditStats, String> {
     }
     Ok(stats)
 }
+
+// ---------------------------------------------------------------------------------------------
+// heap graph dump, for comparing a collection with the collector model
+
+#[derive(Debug, Clone, Default)]
+pub struct HeapDump {
+    /// (address, marker: 0 White, 1 Gray, 2 Black, 3 Protected, addresses of referenced objects)
+    pub objects: Vec<(usize, u8, Vec<usize>)>,
+    /// value stack, globals, closures of call frames, open upvalues
+    pub roots: Vec<usize>,
+}
+
+pub fn dump_heap(rt: &RuntimeData) -> HeapDump {
+    let mut d = HeapDump::default();
+    let stack_lo = rt.value_stack.as_slice().as_ptr() as usize;
+    let stack_hi = stack_lo + rt.value_stack.len() * std::mem::size_of::<Value>();
+    let addr_of = |v: &Value| match v {
+        Value::Object(o) => Some(o.as_ptr() as usize),
+        _ => None,
+    };
+    for o in rt.object_list.iter() {
+        unsafe {
+            let obj = o.as_ref();
+            let marker = match obj.marker {
+                GcMarker::White => 0,
+                GcMarker::Gray => 1,
+                GcMarker::Black => 2,
+                GcMarker::Protected => 3,
+            };
+            let mut kids = vec![];
+            match &obj.body {
+                CaoLangObjectBody::Table(t) => {
+                    for (k, v) in t.iter() {
+                        kids.extend(addr_of(k));
+                        kids.extend(addr_of(v));
+                    }
+                }
+                CaoLangObjectBody::Closure(c) => {
+                    for u in c.upvalues.iter() {
+                        kids.push(u.as_ptr() as usize);
+                    }
+                }
+                CaoLangObjectBody::Upvalue(u) => {
+                    let loc = u.location as usize;
+                    let own = (&u.value) as *const Value as usize;
+                    if loc == own {
+                        kids.extend(addr_of(&u.value));
+                    } else if stack_lo <= loc && loc < stack_hi {
+                        kids.extend(addr_of(&*u.location));
+                    }
+                }
+                CaoLangObjectBody::String(_)
+                | CaoLangObjectBody::Function(_)
+                | CaoLangObjectBody::NativeFunction(_) => {}
+            }
+            d.objects.push((o.as_ptr() as usize, marker, kids));
+        }
+    }
+    for v in rt.value_stack.iter() {
+        d.roots.extend(addr_of(&v));
+    }
+    for v in rt.global_vars.iter() {
+        d.roots.extend(addr_of(v));
+    }
+    for f in rt.call_stack.iter() {
+        if !f.closure_object.is_null() {
+            d.roots.push(f.closure_object as usize);
+        }
+    }
+    let mut u = rt.open_upvalues;
+    let mut n = 0;
+    while !u.is_null() && n < 1_000_000 {
+        d.roots.push(u as usize);
+        unsafe {
+            u = match (*u).as_upvalue() {
+                Some(up) => up.next,
+                None => std::ptr::null_mut(),
+            };
+        }
+        n += 1;
+    }
+    d
+}
